@@ -23,7 +23,8 @@ Ops      == {"copy", "move"}
 SrcKinds == {"file", "missing", "dir", "linkToFile"}     \* linkToFile: the source path is a symbolic link to the file R
 DstKinds == {"missing", "file", "same", "symlinkToSrc", "hardlinkToSrc", "dir", "parentMissing", "parentIsFile",
              "otherFsMissing", "otherFsFile", "otherFsSymlinkToSrc", "danglingSymlink", "symlinkToOther",
-             "srcTarget", "symlinkToSrcTarget"}      \* with src = linkToFile: dst is R itself / another link to R
+             "srcTarget", "symlinkToSrcTarget",       \* with src = linkToFile: dst is R itself / another link to R
+             "full"}                                  \* a destination that can be opened but whose writes fail (no space left)
 
 None == [t |-> "none"]
 File(i) == [t |-> "file", i |-> i]
@@ -38,7 +39,7 @@ VARIABLES scen, ent, ino, pc, result, srcOpen, removedBeforeComplete
 vars == <<scen, ent, ino, pc, result, srcOpen, removedBeforeComplete>>
 
 DstName(s) == IF s.dst = "same" THEN "S" ELSE IF s.dst = "srcTarget" THEN "R" ELSE "D"
-DevOf(s, n) == IF n \in {"D", "T"} /\ s.dst \in {"otherFsMissing", "otherFsFile", "otherFsSymlinkToSrc"} THEN 2 ELSE 1
+DevOf(s, n) == IF n \in {"D", "T"} /\ s.dst \in {"otherFsMissing", "otherFsFile", "otherFsSymlinkToSrc", "full"} THEN 2 ELSE 1
 
 InitEnt(s) ==
   [n \in Names |->
@@ -46,7 +47,7 @@ InitEnt(s) ==
      ELSE IF n = "R" THEN (IF s.src = "linkToFile" THEN File(1) ELSE None)
      ELSE IF n = "D" THEN
         (CASE s.dst \in {"missing", "otherFsMissing", "same"} -> None
-           [] s.dst \in {"file", "otherFsFile"} -> File(2)
+           [] s.dst \in {"file", "otherFsFile", "full"} -> File(2)
            [] s.dst \in {"symlinkToSrc", "otherFsSymlinkToSrc"} -> Link("S")
            [] s.dst = "hardlinkToSrc" -> (IF s.src = "file" THEN File(1) ELSE None)
            [] s.dst = "dir" -> Dir
@@ -57,13 +58,14 @@ InitEnt(s) ==
            [] OTHER -> None)
      ELSE (IF s.dst = "symlinkToOther" THEN File(2) ELSE None)]
 InitIno(s) == [i \in 1..3 |-> IF i = 1 /\ s.src \in {"file", "linkToFile"} THEN OrigSrc
-                              ELSE IF i = 2 /\ s.dst \in {"file", "otherFsFile", "symlinkToOther"} THEN OrigDst ELSE "free"]
+                              ELSE IF i = 2 /\ s.dst \in {"file", "otherFsFile", "symlinkToOther", "full"} THEN OrigDst ELSE "free"]
 
 Scenarios == {s \in [op : Ops, src : SrcKinds, dst : DstKinds] :
                  /\ ~(s.dst = "hardlinkToSrc" /\ s.src # "file")
                  /\ ~(s.op = "move" /\ s.src = "dir")       \* moving directories is outside the property
                  /\ (s.dst \in {"srcTarget", "symlinkToSrcTarget"} <=> s.src = "linkToFile")
-                 /\ ~(s.op = "move" /\ s.src = "linkToFile")}  \* aliasing is stated for CopyFile only
+                 /\ ~(s.op = "move" /\ s.src = "linkToFile")   \* aliasing is stated for CopyFile only
+                 /\ (s.dst = "full" => s.op = "copy" /\ s.src = "file")}
 
 Init == /\ scen \in Scenarios
         /\ ent = InitEnt(scen) /\ ino = InitIno(scen)
@@ -94,7 +96,7 @@ Create == \* os.Create(dst): follows symlinks, truncates an existing file, creat
   /\ LET r == Resolve(Dst) IN
      CASE ent[Dst].t = "unusable" \/ ent[r].t = "unusable" -> Fail("create dst") /\ UNCHANGED <<ent, ino>>
        [] ent[r].t = "dir" -> Fail("dst is a directory") /\ UNCHANGED <<ent, ino>>
-       [] ent[r].t = "file" -> /\ ino' = [ino EXCEPT ![ent[r].i] = "empty"]
+       [] ent[r].t = "file" -> /\ ino' = [ino EXCEPT ![ent[r].i] = "empty"]      \* (nothing to truncate on a full device either)
                                /\ pc' = "copy" /\ UNCHANGED <<ent, result>>
        [] OTHER -> /\ ent' = [ent EXCEPT ![r] = File(FreeIno)]
                    /\ ino' = [ino EXCEPT ![FreeIno] = "empty"]
@@ -103,6 +105,7 @@ Create == \* os.Create(dst): follows symlinks, truncates an existing file, creat
 Copy ==   \* io.Copy(dest, src): reads what the source inode holds NOW
   /\ pc = "copy"
   /\ IF srcOpen = 99 THEN Fail("read src: is a directory") /\ UNCHANGED ino
+     ELSE IF scen.dst = "full" THEN Fail("write dst: no space left on device") /\ UNCHANGED ino    \* the copy breaks off part-way
      ELSE /\ ino' = [ino EXCEPT ![Target(Dst).i] = ino[srcOpen]]
           /\ (IF scen.op = "copy" THEN pc' = "done" /\ result' = "ok" ELSE pc' = "remove" /\ UNCHANGED result)
   /\ UNCHANGED <<scen, ent, srcOpen, removedBeforeComplete>>
